@@ -290,9 +290,17 @@ def enc_rat(pix, palette, rng, preset="maximal", escape=None, border=0):
 
 
 # ---------------------------------------------------------------------------------- CM3
+CM3_EXTRA = [None]      # (anirat, cycrat, 8 cycle-table bytes, animation flag, cycle flag) or None for all zero
+
+
 def cm3_header(palette, two_pages, patterns, anirat=0, cycrat=0):
     typ = (0x80 if two_pages else 0) | (0 if patterns else 1)
-    h = bytes([typ]) + bytes(palette) + bytes([anirat, cycrat]) + bytes([0] * 8) + bytes([0, 0])
+    if CM3_EXTRA[0] is not None:
+        # the animation / colour-cycling fields (what the editor does with the picture on screen; nothing a still decode uses)
+        ar, cr, table, af, cf = CM3_EXTRA[0]
+        h = bytes([typ]) + bytes(palette) + bytes([ar, cr]) + bytes(table) + bytes([af, cf])
+    else:
+        h = bytes([typ]) + bytes(palette) + bytes([anirat, cycrat]) + bytes([0] * 8) + bytes([0, 0])
     if patterns:
         h += bytes([(i * 7) & 255 for i in range(243)])
     return h
